@@ -105,6 +105,29 @@ example : (match (PMT.pack pmtFlipExample).2 with
                 | _, _, _ => false)
     | .error _ => false) = true := by decide +kernel
 
+/-- **False, not an exception, whenever the corrupted section still parses as well-formed fields.**
+    `buf'` differs from `buf = pack s` in exactly one byte and is: the packet header, adaptation bytes
+    and pointer field of `s`, the section fields of some well-formed `s'` (same packet frame), and the
+    CRC + stuffing of `s` — i.e. only the CRC is stale.  Then `unpack(buf')` returns False.  Covers every
+    one-byte change of a descriptor tag / data byte, a stream type, elementary PID, ES descriptor byte and
+    of the non-length bits of the fixed part (complements `PMT_detects_flip_partial`, whose "or raises"
+    alternative can then only occur when the change breaks the framing of a loop). -/
+theorem PMT_flip_false_wellformed (s s' t : PMT) (h : PMT_WF s) (h' : PMT_WF s') (hpkt : s'.pkt = s.pkt)
+    (hs : s.pkt.sync = 0x47) (hafc : s.pkt.adaption_ctrl = 1 ∨ s.pkt.adaption_ctrl = 3)
+    (pre suf : Bytes) (a a' : UInt8) (hbuf : Pkt_bytes (PMT_pkt s) = pre ++ a :: suf) (hne : a ≠ a')
+    (hbuf' : pre ++ a' :: suf = (Pkt_hdr (PMT_pkt s) ++ Pkt_af (PMT_pkt s) ++ [0]) ++
+      (PMT_hdr s' ++ (PMT_loops s' ++ (PMT_crc4 s ++ Pkt_stuffing (PMT_pkt s))))) :
+    (PMT.pack s).2 = .ok (pre ++ a :: suf) ∧ (PMT.unpack t (pre ++ a' :: suf)).2 = .ok false :=
+  ⟨by rw [PMT_pack_eq s h, hbuf], PMT_stale_crc_false s s' t h' hpkt hs hafc pre suf a a' hbuf hne hbuf'⟩
+
+/-- instance: `pmtFlipExample` with descriptor tag 5 → 4 (`s'`), byte 17 of the packet -/
+example : (match (PMT.pack pmtFlipExample).2 with
+    | .ok b => b.set 17 4 == (Pkt_hdr (PMT_pkt pmtFlipExample) ++ Pkt_af (PMT_pkt pmtFlipExample) ++ [0]) ++
+        (PMT_hdr { pmtFlipExample with descriptor_tags := [{ tag := some 4, data := [1, 2, 3] }] } ++
+          (PMT_loops { pmtFlipExample with descriptor_tags := [{ tag := some 4, data := [1, 2, 3] }] } ++
+            (PMT_crc4 pmtFlipExample ++ Pkt_stuffing (PMT_pkt pmtFlipExample))))
+    | .error _ => false) = true := by decide +kernel
+
 /-! STANAG 4609: an exactly filled packet (the decoder handles no other, notes E3) carries the 36
     metadata bytes in its last 36 bytes: `pesdata[5:-2]` is bytes 157..185 of the packet, the stored
     checksum bytes 186..187. -/
